@@ -87,17 +87,17 @@ var opNames = map[Op]string{
 }
 
 type Term struct {
-	Op   Op
-	S    Sort
-	Args []*Term
-	Val  uint64  // const bv/bool value
-	F    float64 // const float
-	Name string  // var
-	A, B int
-	bk   uint8 // bounds cache: 0 unknown, 1 computed
-	lo   uint64
-	hi   uint64
-	orig *Term // hex character produced from this byte (see hexOfBytes)
+	Op     Op
+	S      Sort
+	Args   []*Term
+	Val    uint64  // const bv/bool value
+	F      float64 // const float
+	Name   string  // var
+	A, B   int
+	bk     uint8 // bounds cache: 0 unknown, 1 computed
+	lo     uint64
+	hi     uint64
+	orig   *Term // hex character produced from this byte (see hexOfBytes)
 	origHi bool
 }
 
